@@ -119,8 +119,9 @@ def apply_op(mab, op, catch=True):
     if name in ("fit_tiled", "partial_fit_tiled"):
         # [name, decisions, rewards, contexts, times]: the batch repeated `times` times (thousands of rows)
         t = op[4]
-        op = [name[:-6], list(op[1]) * t, list(op[2]) * t, ([list(r) for _ in range(t) for r in op[3]]
-                                                             if op[3] is not None else None)]
+        step = op[5] if len(op) > 5 else 0      # optional drift: repetition k is shifted by k*step (distinct rows)
+        op = [name[:-6], list(op[1]) * t, list(op[2]) * t,
+              ([[v + step * k for v in r] for k in range(t) for r in op[3]] if op[3] is not None else None)]
         name = op[0]
     if name in ("fit", "partial_fit") and isinstance(op[2], dict):
         # rewards {"array": values, "dtype": name}: an ndarray of that dtype
